@@ -122,22 +122,25 @@ func c34Path(p string) string {
 	return coqList(segs)
 }
 
-// KF signatures: narrow predicates on the board names
+// KF signatures: narrow predicates on the board names.  Names with a ".." element are refused by the
+// CLI since b8f1f57d8 and carry no signature any more.
 func c34KF(names []string) []string {
 	set := map[string]bool{}
 	for _, n := range names {
-		if strings.Contains(n, "/") || n == "." || n == ".." {
-			dotseg := false
-			for _, s := range strings.Split(n, "/") {
-				if s == "." || s == ".." {
-					dotseg = true
-				}
+		dotdot := false
+		for _, s := range strings.Split(n, "/") {
+			if s == ".." {
+				dotdot = true
 			}
-			if dotseg {
-				set["C34-board-name-dot-segment"] = true
-			} else {
-				set["C34-board-name-slash"] = true
-			}
+		}
+		if dotdot {
+			continue
+		}
+		if strings.Contains(n, "/") {
+			set["C34-board-name-slash"] = true
+		}
+		if n == "." {
+			set["C34-board-name-single-dot"] = true
 		}
 		if n == "index" {
 			set["C34-board-name-index"] = true
@@ -232,7 +235,43 @@ func c34GenTree(r *Rng, hostile bool) *c34Board {
 		}
 		return b
 	}
-	return gen(0, nil)
+	root := gen(0, nil)
+	// sometimes add, next to a board with children, a sibling whose NAME is the dotted path of one of
+	// its grandchildren ("a.layers.b" beside a{layers:{b}}): distinct boards, same flattened board path
+	var addFlat func(b *c34Board)
+	addFlat = func(b *c34Board) {
+		kinds := []struct {
+			k  string
+			bs *[]*c34Board
+		}{{"layers", &b.Layers}, {"scenarios", &b.Scenarios}, {"steps", &b.Steps}}
+		for _, kd := range kinds {
+			var extra []*c34Board
+			for _, c := range *kd.bs {
+				for _, sub := range []struct {
+					k  string
+					bs []*c34Board
+				}{{"layers", c.Layers}, {"scenarios", c.Scenarios}, {"steps", c.Steps}} {
+					for _, g := range sub.bs {
+						if r.Intn(3) == 0 && !strings.ContainsAny(c.Name+g.Name, "/") && c.Name != "." && c.Name != ".." {
+							n := c.Name + "." + sub.k + "." + g.Name
+							if !used[b][n] {
+								used[b][n] = true
+								extra = append(extra, &c34Board{Name: n, Shape: true})
+							}
+						}
+					}
+				}
+				addFlat(c)
+			}
+			if r.Bool() {
+				*kd.bs = append(*kd.bs, extra...)
+			} else {
+				*kd.bs = append(extra, *kd.bs...)
+			}
+		}
+	}
+	addFlat(root)
+	return root
 }
 
 func c34L(names ...string) []*c34Board {
@@ -266,6 +305,12 @@ func c34Corpus() []*c34Board {
 		{Shape: false, Layers: c34L("a")}, // folder-only root
 		{Shape: true, Scenarios: []*c34Board{{Name: "s", Shape: false, Steps: c34L("1")}}},
 		{Shape: true, Layers: c34L("../sentinel.txt", "../../victim2")},
+		// names that spell the dotted board path of a nested board (root.layers.a.layers.b twice)
+		{Shape: true, Layers: []*c34Board{withKids("a", c34L("b")...), {Name: "a.layers.b", Shape: true}}},
+		{Shape: true, Layers: []*c34Board{{Name: "a.layers.b", Shape: true}, withKids("a", c34L("b")...)}},
+		{Shape: true, Layers: []*c34Board{{Name: "a", Shape: true, Scenarios: []*c34Board{withKids("s", c34L("x")...)}},
+			withKids("a.scenarios.s", c34L("x")...), {Name: "a.scenarios.s.layers.x", Shape: true}}},
+		{Shape: true, Steps: []*c34Board{{Name: "1", Shape: true, Steps: c34L("2")}, {Name: "1.steps.2", Shape: true}}},
 	}
 }
 
@@ -317,7 +362,23 @@ func c34List(u string, tags map[string]int) (c34Listing, error) {
 	return l, err
 }
 
-func (l c34Listing) coqFiles() string {
+// c34Rel prints a path below the sandbox u as (u ++ [segments]) so that the long common prefix is
+// parsed once per case (`let u := ... in`).
+func c34Rel(u, p string) string {
+	if p == u {
+		return "u"
+	}
+	if strings.HasPrefix(p, u+"/") {
+		var segs []string
+		for _, s := range strings.Split(strings.TrimPrefix(p, u+"/"), "/") {
+			segs = append(segs, coqBytes(s))
+		}
+		return "(u ++ " + coqList(segs) + ")"
+	}
+	return c34Path(p)
+}
+
+func (l c34Listing) coqFiles(u string) string {
 	var ks []string
 	for k := range l.files {
 		ks = append(ks, k)
@@ -325,15 +386,15 @@ func (l c34Listing) coqFiles() string {
 	sort.Strings(ks)
 	var xs []string
 	for _, k := range ks {
-		xs = append(xs, coqTuple(c34Path(k), fmt.Sprint(l.files[k])))
+		xs = append(xs, coqTuple(c34Rel(u, k), fmt.Sprint(l.files[k])))
 	}
 	return coqList(xs)
 }
 
-func (l c34Listing) coqDirs() string {
+func (l c34Listing) coqDirs(u string) string {
 	var xs []string
 	for _, d := range l.dirs {
-		xs = append(xs, c34Path(d))
+		xs = append(xs, c34Rel(u, d))
 	}
 	return coqList(xs)
 }
@@ -442,8 +503,8 @@ func c34Case(u string, b *c34Board, class string) (cs Case) {
 		return fail("list: %v", err)
 	}
 
-	cs.Coq = fmt.Sprintf("Case %s %s %s %s %s %s %s %s", coqBytes(".svg"), c34Path(outStem), tree.coq(),
-		before.coqFiles(), before.coqDirs(), after.coqFiles(), after.coqDirs(), coqBool(failed))
+	cs.Coq = fmt.Sprintf("(let u := %s in Case %s %s %s %s %s %s %s %s)", c34Path(u), coqBytes(".svg"), c34Rel(u, outStem), tree.coq(),
+		before.coqFiles(u), before.coqDirs(u), after.coqFiles(u), after.coqDirs(u), coqBool(failed))
 	var created, removed, changed []string
 	rel := func(p string) string { r, _ := filepath.Rel(u, p); return r }
 	for p, t := range after.files {
